@@ -142,7 +142,7 @@ func (p *Path) unsupported(format string, a ...any) {
 	if p.lenient > 0 {
 		panic(lenientFail{msg})
 	}
-	p.end("unsupported", "%s at %s", msg, p.where())
+	p.end("unsupported", "%s at %s [%s]", msg, p.where(), strings.Join(p.stackStrings(), " < "))
 }
 
 type lenientFail struct{ msg string }
